@@ -11,7 +11,8 @@
      Prefix   - the first steps are forced (PrefixId selects one of Prefixes; 0 = none) so
                 that short histories start from pools with idle / oversize / unopened files;
      slots    - OpenWriter uses the lowest free slot (slots are interchangeable);
-     a trailing Write cannot influence anything observable.                          *)
+     a trailing Write cannot influence anything observable; explicit gcReaders /
+                gcWriters only on pools that hold such handles; no two refused DB.Close in a row. *)
 EXTENDS FileController, Json
 CONSTANTS Depth, PrefixId
 VARIABLES hist, emitted
@@ -60,6 +61,10 @@ GNext ==
         op'.a = q.a /\ op'.s = q.s /\ op'.k = q.k /\ op'.n = q.n
   /\ op'.a = "open" => \A t \in Slots : t < op'.s => wr[t].st # "free"
   /\ Len(hist) = Depth - 1 => op'.a # "write"
+  \* calls that cannot do anything: explicit gc passes on an empty pool, DB.Close refused twice in a row
+  /\ op'.a = "gcr" => Total(ru) + Total(ri) > 0
+  /\ op'.a = "gcw" => WH(Cur) # {}
+  /\ (op'.a = "close" /\ res' = "busy") => op.a # "close"
 EmitStep ==
   /\ Len(hist) = Depth /\ ~emitted
   /\ PrintT(<<"HIST", ToJson(hist)>>)
